@@ -39,6 +39,7 @@
  * at least one byte whatever the concrete ids are.
  */
 #include "esx.h"
+#include <pthread.h>
 #include "galloc.h"
 #include <aws/common/byte_buf.h>
 #include <aws/common/ring_buffer.h>
@@ -68,6 +69,9 @@ static unsigned next_id;     /* NOT in canon, see header comment */
 
 static int g_eh;        /* configuration "-eh": the error handler is a client of the ring (see eh_fn) */
 static int g_in_call;   /* inside a library acquire call */
+static int g_two, g_hand; /* configurations "-two" and "-hand" (see m_apply) */
+static struct aws_ring_buffer rb2;
+static int rb2_live;
 static int g_eh_fired;  /* the handler already acted in this call */
 static void eh_fn(int err, void *ctx);
 
@@ -118,6 +122,11 @@ static void m_reset(void) {
         _exit(2);
     }
     rb_live = 1;
+    if (g_two) {
+        AWS_ZERO_STRUCT(rb2);
+        if (aws_ring_buffer_init(&rb2, a, S + 48) != AWS_OP_SUCCESS) _exit(2);
+        rb2_live = 1;
+    }
     base = rb.allocation;
     /* the storage is a live block of the allocator handed in that holds at least S bytes (an implementation may pad it);
      * the ring itself is the S bytes [allocation, allocation_end) - what the public struct says, and all the oracle uses */
@@ -154,6 +163,10 @@ static void m_teardown(void) {
     if (rb_live) {
         aws_ring_buffer_clean_up(&rb);
         rb_live = 0;
+    }
+    if (rb2_live) {
+        aws_ring_buffer_clean_up(&rb2);
+        rb2_live = 0;
     }
 }
 
@@ -355,15 +368,44 @@ static void record_grant(struct aws_byte_buf dest, const char *nm, size_t head_b
     used = 1;
 }
 
-static void m_apply(int op) {
+/* configuration "-two": a second ring of another size lives next to the one under test and is used between its operations
+ * (acquire one byte, release it: the companion passes through its idle state every time).  Whatever a ring needs to know
+ * about itself has to come from that ring (added after a seeded change that kept the storage size in a file-scope static,
+ * refreshed whenever any ring was idle: one ring alone is always right).
+ * configuration "-hand": every second operation is issued by a freshly created helper thread while the owner waits in the
+ * join - the ring is used by one thread at a time, only not always the same one (added after a seeded change that cached
+ * the head pointer in thread-local storage of the acquiring thread). */
+static void companion_activity(void) {
+    if (!g_two || !rb2_live) return;
+    struct aws_byte_buf b;
+    AWS_ZERO_STRUCT(b);
+    g_in_call = 0;
+    if (aws_ring_buffer_acquire(&rb2, 1, &b) == AWS_OP_SUCCESS) aws_ring_buffer_release(&rb2, &b);
+    else esx_fail("idle-request-refused", "the idle companion ring of %zu bytes refused acquire(1)", S + 48);
+}
+static void apply_body(int op) {
     char nm[64];
-    ++g_steps;
-    memset(ev, 0, sizeof(ev));
     m_opname(op, nm, sizeof(nm));
     if (op == op_release) do_release();
     else if (op < op_release) do_acquire(0, 0, (size_t)op + 1, nm);
     else if (op < op_big) do_acquire(1, upto_tab[op].min, upto_tab[op].n, nm);
     else do_acquire(big_tab[op - op_big].upto, big_tab[op - op_big].upto ? big_min(op - op_big) : 0, big_n(op - op_big), nm);
+}
+static void *apply_on_helper(void *p) {
+    apply_body((int)(intptr_t)p);
+    return NULL;
+}
+static void m_apply(int op) {
+    ++g_steps;
+    memset(ev, 0, sizeof(ev));
+    companion_activity();
+    if (g_hand && (g_steps & 1) == 0) {
+        pthread_t t;
+        if (pthread_create(&t, NULL, apply_on_helper, (void *)(intptr_t)op) != 0) _exit(2);
+        pthread_join(t, NULL);
+    } else {
+        apply_body(op);
+    }
 }
 
 static size_t m_canon(uint8_t *b, size_t cap) {
@@ -384,10 +426,12 @@ static struct esx_model model = {
     .reset = m_reset, .enabled = m_enabled, .apply = m_apply, .canon = m_canon, .opname = m_opname, .teardown = m_teardown,
 };
 
-static void set_size(size_t s, int eh) {
+static void set_size(size_t s, int variant) {
     S = s;
-    g_eh = eh;
-    snprintf(g_name, sizeof(g_name), "ring-s%zu%s", s, eh ? "-eh" : "");
+    g_eh = variant == 1;
+    g_two = variant == 2;
+    g_hand = variant == 3;
+    snprintf(g_name, sizeof(g_name), "ring-s%zu%s", s, variant == 1 ? "-eh" : variant == 2 ? "-two" : variant == 3 ? "-hand" : "");
     model.name = g_name;
     op_release = (int)s + 1;
     int k = op_release + 1;
@@ -409,7 +453,7 @@ int main(int argc, char **argv) {
     aws_common_library_init(aws_default_allocator());
     size_t max_s = v_thorough() ? 12 : 8;
     int rc = 0;
-    for (int eh = 0; eh < 2; ++eh)
+    for (int eh = 0; eh < 4; ++eh)
         for (size_t s = 1; s <= MAXS - 2; ++s) {
             set_size(s, eh);
             if (v_replay_token) {
